@@ -571,7 +571,7 @@ func c10R3(c *Ctx, r *Report) {
 		}
 		// the reconstruction sits in rawSignatureData or in a helper it calls (whose Labels argument is s.Labels)
 		wfn := calleeWith(fn, usesStar)
-		if wfn != nil && wfn != fn {
+		if wfn != nil {
 			labelsIn := boundTo(fn, wfn, fieldPathOf(isValue(sig), "Labels"))
 			var extras []string
 			allInstrs(wfn, func(in ssa.Instruction) {
@@ -597,9 +597,15 @@ func c10R3(c *Ctx, r *Report) {
 					}
 					extra := ""
 					for _, fc := range factsAt(wfn, b) {
-						if fc.If != nil && !matchGuard(fc, g) {
-							extra = fc.Atom.String()
+						if fc.If == nil || matchGuard(fc, g) {
+							continue
 						}
+						// in rawSignatureData itself only what lies behind the copy of the record counts (the loop over
+						// the RRset and the tests before it are not conditions of the reconstruction)
+						if wfn == fn && !(copyCall.Block() == fc.If.Block() || copyCall.Block().Dominates(fc.If.Block())) {
+							continue
+						}
+						extra = fc.Atom.String()
 					}
 					extras = append(extras, extra)
 				}
@@ -623,7 +629,7 @@ func c10R3(c *Ctx, r *Report) {
 		}
 		allInstrs(fn, func(in ssa.Instruction) {
 			st, ok := in.(*ssa.Store)
-			if !ok || !readsField("RR_Header", "Name")(st.Addr) || (wfn != nil && wfn != fn) {
+			if !ok || !readsField("RR_Header", "Name")(st.Addr) || wfn != nil {
 				return
 			}
 			if _, isCall := st.Val.(*ssa.Call); isCall {
